@@ -22,6 +22,7 @@ import (
 	"github.com/youchainhq/go-youchain/core/state"
 	"github.com/youchainhq/go-youchain/core/vm"
 	"github.com/youchainhq/go-youchain/core/vm/runtime"
+	"github.com/youchainhq/go-youchain/crypto"
 	"github.com/youchainhq/go-youchain/params"
 	"github.com/youchainhq/go-youchain/youdb"
 	"verif/harness/drive"
@@ -51,6 +52,7 @@ type capture struct {
 
 // tracer implements vm.Tracer; it only copies what the interpreter shows it.
 type tracer struct {
+	bal0 [][]string // balances of the known accounts when the first instruction is reached
 	caps []capture
 	keys []common.Hash // storage keys touched by SSTORE / SLOAD, in order of first use
 	seen map[common.Hash]bool
@@ -61,6 +63,9 @@ func (t *tracer) CaptureStart(from common.Address, to common.Address, call bool,
 }
 
 func (t *tracer) CaptureState(env *vm.EVM, pc uint64, op vm.OpCode, gas, cost uint64, memory *vm.Memory, stack *vm.Stack, contract *vm.Contract, depth int, err error) error {
+	if t.bal0 == nil {
+		t.bal0 = balances(env.StateDB)
+	}
 	c := capture{op: op, pc: pc, cost: cost, err: err}
 	for _, v := range stack.Data() {
 		c.stack = append(c.stack, v.String())
@@ -139,7 +144,10 @@ func compile(p *Program) ([]byte, []instr, error) {
 			code = append(code, byte(in.raw))
 		default:
 			name := c[0]
-			op := vm.StringToOp(name)
+			op, isEnv := envOps[name]
+			if !isEnv {
+				op = vm.StringToOp(name)
+			}
 			if op == 0 && name != "STOP" {
 				return nil, nil, fmt.Errorf("unknown opcode %q", name)
 			}
@@ -155,6 +163,61 @@ func compile(p *Program) ([]byte, []instr, error) {
 
 var contractAddr = common.BytesToAddress([]byte("contract"))
 
+// the environment of every program: who calls, with what value, and a few other accounts
+var (
+	originAddr   = common.BytesToAddress([]byte("origin-account"))
+	coinbaseAddr = common.BytesToAddress([]byte("coinbase-account"))
+	eoaAddr      = common.BytesToAddress([]byte("funded-account"))  // funded, no code
+	otherAddr    = common.BytesToAddress([]byte("other-contract"))  // funded, code 0x00
+	noneAddr     = common.BytesToAddress([]byte("no-such-account")) // does not exist
+	callValue    = int64(5)
+	gasPrice     = int64(7)
+	selfFunds    = int64(1000)
+	originFunds  = int64(1000000)
+)
+
+// state-reading opcodes the programs may use (some have no name in the repository's opcode tables)
+var envOps = map[string]vm.OpCode{
+	"ADDRESS": vm.ADDRESS, "ORIGIN": vm.ORIGIN, "CALLER": vm.CALLER, "CALLVALUE": vm.CALLVALUE, "GASPRICE": vm.GASPRICE,
+	"SELFBALANCE": vm.SELFBALANCE, "NETWORKID": vm.NETWORKID, "CODESIZE": vm.CODESIZE, "CALLDATASIZE": vm.CALLDATASIZE,
+	"COINBASE": vm.COINBASE, "TIMESTAMP": vm.TIMESTAMP, "NUMBER": vm.NUMBER, "DIFFICULTY": vm.DIFFICULTY, "GASLIMIT": vm.GASLIMIT,
+	"BALANCE": vm.BALANCE, "EXTCODESIZE": vm.EXTCODESIZE, "EXTCODEHASH": vm.EXTCODEHASH,
+}
+
+func dec(a common.Address) string { return new(big.Int).SetBytes(a.Bytes()).String() }
+
+// environment is what the environment opcodes are specified to return for this set-up (computed from the set-up, not
+// read from the EVM): the nullary ones by name, and balance / code size / code hash per known account.
+func environment(code []byte) (map[string]string, [][]string) {
+	hash := func(b []byte) string { return new(big.Int).SetBytes(crypto.Keccak256(b)).String() }
+	env := map[string]string{
+		"ADDRESS": dec(contractAddr), "ORIGIN": dec(originAddr), "CALLER": dec(originAddr), "CALLVALUE": fmt.Sprint(callValue),
+		"GASPRICE": fmt.Sprint(gasPrice), "SELFBALANCE": fmt.Sprint(selfFunds + callValue), "NETWORKID": fmt.Sprint(params.NetworkId()),
+		"CODESIZE": fmt.Sprint(len(code)), "CALLDATASIZE": "0", "COINBASE": dec(coinbaseAddr), "TIMESTAMP": "1", "NUMBER": "1",
+		"DIFFICULTY": "0", "GASLIMIT": fmt.Sprint(gasLimit),
+	}
+	accts := [][]string{ // address, balance, code size, code hash (0 for an account that does not exist)
+		{dec(contractAddr), fmt.Sprint(selfFunds + callValue), fmt.Sprint(len(code)), hash(code)},
+		{dec(originAddr), fmt.Sprint(originFunds - callValue), "0", hash(nil)},
+		{dec(eoaAddr), "12345", "0", hash(nil)},
+		{dec(otherAddr), "77", "1", hash([]byte{0})},
+		{dec(noneAddr), "0", "0", "0"},
+	}
+	return env, accts
+}
+
+var known = []common.Address{contractAddr, originAddr, eoaAddr, otherAddr, noneAddr, coinbaseAddr}
+
+func balances(db vm.StateDB) [][]string {
+	out := [][]string{}
+	for _, a := range known {
+		out = append(out, []string{dec(a), db.GetBalance(a).String()})
+	}
+	return out
+}
+
+const gasLimit = uint64(10000000)
+
 // execute deploys the code with the given committed storage (a state that was committed and reopened, so that the
 // slots have an "original" value in the sense of net gas metering) and calls it.
 func execute(code []byte, sto0 [][]string) (t *tracer, st *state.StateDB, err error, panicked string) {
@@ -164,6 +227,12 @@ func execute(code []byte, sto0 [][]string) (t *tracer, st *state.StateDB, err er
 	st0.CreateAccount(contractAddr)
 	st0.SetNonce(contractAddr, 1)
 	st0.SetCode(contractAddr, code)
+	st0.AddBalance(contractAddr, big.NewInt(selfFunds))
+	st0.AddBalance(originAddr, big.NewInt(originFunds))
+	st0.AddBalance(eoaAddr, big.NewInt(12345))
+	st0.AddBalance(otherAddr, big.NewInt(77))
+	st0.SetNonce(otherAddr, 1)
+	st0.SetCode(otherAddr, []byte{0})
 	for _, kv := range sto0 {
 		k, ok1 := new(big.Int).SetString(kv[0], 10)
 		v, ok2 := new(big.Int).SetString(kv[1], 10)
@@ -181,9 +250,13 @@ func execute(code []byte, sto0 [][]string) (t *tracer, st *state.StateDB, err er
 		return t, nil, cerr, ""
 	}
 	cfg := &runtime.Config{
-		GasLimit:    10000000,
+		GasLimit:    gasLimit,
 		Time:        big.NewInt(1),
 		BlockNumber: big.NewInt(1),
+		Origin:      originAddr,
+		Coinbase:    coinbaseAddr,
+		Value:       big.NewInt(callValue),
+		GasPrice:    big.NewInt(gasPrice),
 		State:       st,
 		EVMConfig: &vm.Config{
 			RuntimeConfig: vm.RuntimeConfig{CurrYouParams: &yp, JumpTable: vm.GetJumpTable(yp.EVMVersion)},
@@ -222,7 +295,8 @@ func run(env *drive.Env) error {
 		if sto0 == nil {
 			sto0 = [][]string{}
 		}
-		env.Emit(map[string]interface{}{"ev": "Begin", "sto0": sto0})
+		envv, accts := environment(code)
+		env.Emit(map[string]interface{}{"ev": "Begin", "sto0": sto0, "env": envv, "accts": accts})
 		caps := t.caps
 		// one capture per instruction of a straight-line program; they must be the instructions we compiled
 		for i, c := range caps {
@@ -275,6 +349,11 @@ func run(env *drive.Env) error {
 			}
 		}
 		end["sto"] = sto
+		// balances of the known accounts before the first instruction and after the program
+		end["bal0"], end["bal1"] = [][]string{}, [][]string{}
+		if t.bal0 != nil && panicked == "" {
+			end["bal0"], end["bal1"] = t.bal0, balances(st)
+		}
 		env.Emit(end)
 		p = Program{}
 	}
